@@ -4,6 +4,7 @@ import (
 	"go/ast"
 	"go/token"
 	"go/types"
+	"sort"
 
 	"verif/checker/internal/an"
 	"verif/checker/internal/rep"
@@ -28,6 +29,191 @@ func runC03(c *rep.Ctx) {
 	c03FailedBlock(c)
 }
 
+// c03Roll is one place where the block state is rolled back: a direct
+// BlockState.Rollback call, or a call of a helper (at most two static call
+// levels) that cannot return normally / without error unless a Rollback of its
+// own parameters succeeded.
+type c03Roll struct {
+	site       an.Site
+	recv, snap ast.Expr // the block state and the snapshot handed over at the site
+	void       bool     // helper without error result: returning normally means the rollback succeeded
+	via        string   // name of the helper ("" for a direct call)
+}
+
+const c03RollbackFn = "state.(*BlockState).Rollback"
+
+// c03Rolls lists the rollback places of f (not inside nested literals).
+func c03Rolls(f *an.Func, depth int) []c03Roll {
+	g, info := f.Graph(), f.Info()
+	var out []c03Roll
+	for _, s := range sitesOf(f, c03RollbackFn) {
+		sel, ok := ast.Unparen(s.Call.Fun).(*ast.SelectorExpr)
+		if !ok || len(s.Call.Args) != 1 {
+			continue
+		}
+		out = append(out, c03Roll{site: s, recv: sel.X, snap: s.Call.Args[0]})
+	}
+	if depth >= 2 {
+		return out
+	}
+	helpers := g.Calls(func(fn *types.Func, call *ast.CallExpr) bool {
+		hf := f.Prog.FuncOf(fn)
+		return hf != nil && hf.Decl != nil && hf.Body != nil && an.FuncName(fn) != c03RollbackFn && c03MentionsRollback(hf, depth+1)
+	})
+	sort.Slice(helpers, func(i, j int) bool { return helpers[i].Call.Pos() < helpers[j].Call.Pos() })
+	for _, s := range helpers {
+		hf := f.Prog.FuncOf(s.Fn)
+		recvSlot, snapSlot, void, ok := c03RollbackHelper(hf, depth+1)
+		if !ok {
+			continue
+		}
+		at := func(slot int) ast.Expr {
+			if slot == c03RecvSlot {
+				if sel, isSel := ast.Unparen(s.Call.Fun).(*ast.SelectorExpr); isSel && info.Selections[sel] != nil {
+					return sel.X
+				}
+				return nil
+			}
+			if slot >= 0 && slot < len(s.Call.Args) && !s.Call.Ellipsis.IsValid() {
+				return s.Call.Args[slot]
+			}
+			return nil
+		}
+		r, sn := at(recvSlot), at(snapSlot)
+		if r == nil || sn == nil {
+			continue
+		}
+		out = append(out, c03Roll{site: s, recv: r, snap: sn, void: void, via: hf.Name()})
+	}
+	return out
+}
+
+// c03MentionsRollback: a BlockState.Rollback call occurs in hf or in a function
+// it calls statically, down to the depth c03Rolls follows (cheap pre-filter).
+func c03MentionsRollback(hf *an.Func, depth int) bool {
+	found := false
+	info := hf.Info()
+	an.InspectShallow(hf.Body, func(n ast.Node) bool {
+		call, ok := n.(*ast.CallExpr)
+		if !ok || found {
+			return !found
+		}
+		fn := an.Callee(info, call)
+		if fn == nil {
+			return true
+		}
+		if an.FuncName(fn) == c03RollbackFn {
+			found = true
+		} else if sub := hf.Prog.FuncOf(fn); depth < 2 && sub != nil && sub != hf && sub.Decl != nil && sub.Body != nil && c03MentionsRollback(sub, depth+1) {
+			found = true
+		}
+		return !found
+	})
+	return found
+}
+
+const c03RecvSlot = -1 // the method receiver, as a parameter slot
+
+// c03RollbackHelper decides whether hf is a rollback helper: every rollback
+// place in it acts on the same two parameters of hf (block state, snapshot),
+// neither of which is reassigned, and
+//   - hf has no results: no path from its entry to a normal exit avoids the
+//     success of a rollback place (a failing Rollback ends in panic), or
+//   - hf has the single result error: every return that is not known to
+//     follow a successful rollback hands back a certainly non-nil error or
+//     the error result of the rollback place itself.
+func c03RollbackHelper(hf *an.Func, depth int) (recvSlot, snapSlot int, void, ok bool) {
+	if hf == nil || hf.Decl == nil || hf.Body == nil || hf.Type == nil {
+		return 0, 0, false, false
+	}
+	g, info := hf.Graph(), hf.Info()
+	nRes := 0
+	if hf.Type.Results != nil {
+		nRes = hf.Type.Results.NumFields()
+	}
+	switch nRes {
+	case 0:
+		void = true
+	case 1:
+		if !c03IsError(info.TypeOf(hf.Type.Results.List[0].Type)) {
+			return 0, 0, false, false
+		}
+	default:
+		return 0, 0, false, false
+	}
+	slotOf := func(e ast.Expr) int {
+		o := an.ObjOf(info, e)
+		if o == nil || !g.SingleDefOrParam(o) {
+			return -100
+		}
+		if hf.Decl.Recv != nil {
+			for _, fl := range hf.Decl.Recv.List {
+				for _, nm := range fl.Names {
+					if info.Defs[nm] == o {
+						return c03RecvSlot
+					}
+				}
+			}
+		}
+		for i := 0; hf.Type.Params != nil && i < hf.Type.Params.NumFields(); i++ {
+			if hf.ParamObj(i) == o {
+				return i
+			}
+		}
+		return -100
+	}
+	rolls := c03Rolls(hf, depth)
+	if len(rolls) == 0 {
+		return 0, 0, false, false
+	}
+	success := an.Set{}
+	tail := an.Set{} // returns whose value is the error result of a rollback place
+	for i, r := range rolls {
+		rs, ss := slotOf(r.recv), slotOf(r.snap)
+		if rs == -100 || ss == -100 || (i > 0 && (rs != recvSlot || ss != snapSlot)) {
+			return 0, 0, false, false
+		}
+		recvSlot, snapSlot = rs, ss
+		if r.void {
+			success[r.site.Node] = true
+			continue
+		}
+		for e := range g.ErrNilEdges(r.site) {
+			success[e] = true
+		}
+		if ret, isRet := r.site.Node.Ast.(*ast.ReturnStmt); isRet && len(ret.Results) == 1 && ast.Unparen(ret.Results[0]) == ast.Expr(r.site.Call) {
+			tail[r.site.Node] = true
+		}
+	}
+	if void {
+		return recvSlot, snapSlot, true, len(success) > 0 && !g.Reach([]*an.Node{g.Entry}, success)[g.Exit]
+	}
+	for _, pr := range g.Exit.Preds {
+		if !g.Reach([]*an.Node{g.Entry}, success)[pr] || tail[pr] {
+			continue
+		}
+		ret, isRet := pr.Ast.(*ast.ReturnStmt)
+		if !isRet || pr.Kind != an.KStmt || len(ret.Results) != 1 {
+			return 0, 0, false, false
+		}
+		res := ast.Unparen(ret.Results[0])
+		if an.NonNilErrorExpr(info, res) {
+			continue
+		}
+		if o := an.ObjOf(info, res); o != nil {
+			if nonNil, _ := g.GuardedAt(pr, an.NilAtom(info, o), map[string]bool{"nil": false}); nonNil {
+				continue
+			}
+		}
+		return 0, 0, false, false
+	}
+	return recvSlot, snapSlot, false, len(success)+len(tail) > 0
+}
+
+func c03IsError(t types.Type) bool {
+	return t != nil && types.Identical(t, types.Universe.Lookup("error").Type())
+}
+
 func c03ExecutorBracket(c *rep.Ctx) {
 	f := c.Fn("chain.NewTxExecutor$1")
 	if f == nil {
@@ -37,9 +223,10 @@ func c03ExecutorBracket(c *rep.Ctx) {
 	info := f.Info()
 	snaps := sitesOf(f, "state.(*BlockState).Snapshot")
 	execs := sitesOf(f, "chain.executeTx")
-	rolls := sitesOf(f, "state.(*BlockState).Rollback")
+	// the rollback places: direct BlockState.Rollback calls and calls of rollback helpers
+	rolls := c03Rolls(f, 0)
 	if len(snaps) != 1 || len(execs) != 1 || len(rolls) < 1 {
-		c.Check("tx-bracket", "chain.NewTxExecutor$1|shape", f.Pos(), false, "expected exactly one Snapshot, one executeTx and at least one Rollback in the transaction executor closure")
+		c.Check("tx-bracket", "chain.NewTxExecutor$1|shape", f.Pos(), false, "expected exactly one Snapshot, one executeTx and at least one Rollback in the transaction executor closure (a direct BlockState.Rollback call, or a call of a helper that cannot return unless a Rollback of the block state and snapshot it was handed succeeded)")
 		return
 	}
 	snapVar := g.ResultVarAt(snaps[0], 0)
@@ -66,12 +253,12 @@ func c03ExecutorBracket(c *rep.Ctx) {
 	rollNodes := an.Set{}
 	sameSnap := true
 	for _, r := range rolls {
-		rollNodes[r.Node] = true
-		if !argIs(info, r.Call, 0, snapVar) || recvObj(info, r.Call) != recvObj(info, snaps[0].Call) {
+		rollNodes[r.site.Node] = true
+		if an.ObjOf(info, r.snap) == nil || an.ObjOf(info, r.snap) != snapVar || an.ObjOf(info, r.recv) == nil || an.ObjOf(info, r.recv) != recvObj(info, snaps[0].Call) {
 			sameSnap = false
 		}
 	}
-	c.Check("tx-bracket", "chain.NewTxExecutor$1|Rollback(snapshot)", rolls[0].Call.Pos(), sameSnap, "Rollback is applied to the same block state with the very snapshot value taken before the transaction")
+	c.Check("tx-bracket", "chain.NewTxExecutor$1|Rollback(snapshot)", rolls[0].site.Call.Pos(), sameSnap, "Rollback is applied to the same block state with the very snapshot value taken before the transaction")
 	after := g.Reach(execs[0].Node.Succs, nil)
 	nRet := 0
 	for _, r := range g.Returns() {
@@ -89,14 +276,19 @@ func c03ExecutorBracket(c *rep.Ctx) {
 	}
 	// a failed Rollback does not continue (panic)
 	for _, r := range rolls {
+		if r.void {
+			// decided inside the helper (c03RollbackHelper): it returns only past a successful Rollback
+			c.Check("tx-bracket", "chain.NewTxExecutor$1|Rollback-failure-stops", r.site.Call.Pos(), true, "if Rollback itself fails the executor does not return normally: "+r.via+" reaches its normal exit only past the success edge of Rollback (it panics otherwise), so a half-rolled-back state is never used")
+			continue
+		}
 		bad := false
-		okr := g.ErrNilEdges(r)
+		okr := g.ErrNilEdges(r.site)
 		for _, ret := range g.Returns() {
-			if g.Reach(r.Node.Succs, okr)[ret] {
+			if g.Reach(r.site.Node.Succs, okr)[ret] {
 				bad = true // a return reachable from Rollback without passing its success edge
 			}
 		}
-		c.Check("tx-bracket", "chain.NewTxExecutor$1|Rollback-failure-stops", r.Call.Pos(), len(okr) > 0 && !bad, "if Rollback itself fails the executor does not return normally (it panics), so a half-rolled-back state is never used")
+		c.Check("tx-bracket", "chain.NewTxExecutor$1|Rollback-failure-stops", r.site.Call.Pos(), len(okr) > 0 && !bad, "if Rollback itself fails the executor does not return normally (it panics), so a half-rolled-back state is never used")
 	}
 }
 
@@ -317,10 +509,6 @@ func c03FailedBlock(c *rep.Ctx) {
 		execTx := p.LookupField("chain", "blockExecutor", "execTx")
 		txCalls := funcValueCalls(f, execTx)
 		txOK := errEdgesOf(g, txCalls)
-		for _, t := range append(commits, calls...) {
-			ok := len(txCalls) == 1 && (g.Dominated(t.Node, txOK) || c03SkipsLoop(g, t.Node, txCalls[0].Node))
-			_ = ok
-		}
 		// the loop exits the function on the first failing transaction
 		okAbort := len(txCalls) == 1
 		if okAbort {
@@ -386,5 +574,3 @@ func c03FailedBlock(c *rep.Ctx) {
 		}
 	}
 }
-
-func c03SkipsLoop(g *an.Graph, t, loopCall *an.Node) bool { return false }
